@@ -530,7 +530,8 @@ func (ex *Exec) applyGhostUpdatePkg(fr *Frame, st, pre *State, vars map[string]V
 // ---------- modifies ----------
 
 type modLoc struct {
-	kind  string // field, mem, memrange, all, map, global
+	sub   string // anykey: substring of the heap key names
+	kind  string // field, mem, memrange, all, map, global, anykey
 	keys  []string
 	ref   string
 	base  string
@@ -620,6 +621,14 @@ func (ex *Exec) modLocs(en *Env, e Expr) (locs []modLoc) {
 			}
 			return []modLoc{{kind: "mem", keys: ex.elemKeys(sl.Elem()), base: s.L[0], elemT: sl.Elem()}}
 		}
+		if id, ok := d.Fun.(*EIdent); ok && id.Name == "any" {
+			// any("F|state."): every heap key whose name contains the text, on any object (coarse frame for other modules' state)
+			lit, ok := d.Args[0].(*ELit)
+			if !ok {
+				en.fail("any() needs a string literal")
+			}
+			return []modLoc{{kind: "anykey", sub: lit.Text}}
+		}
 		if id, ok := d.Fun.(*EIdent); ok && id.Name == "mapof" {
 			m := en.eval(d.Args[0])
 			return []modLoc{{kind: "map", keys: ex.mapKeys(m.T), ref: m.L[0]}}
@@ -663,6 +672,16 @@ func (ex *Exec) modLocs(en *Env, e Expr) (locs []modLoc) {
 // havocLocs applies a callee's modifies clause at a call site.
 func (ex *Exec) havocLocs(st *State, locs []modLoc) {
 	for _, l := range locs {
+		if l.kind == "anykey" {
+			var ks []string
+			for _, k := range ex.allKeys() {
+				if strings.Contains(k, l.sub) {
+					ks = append(ks, k)
+				}
+			}
+			ex.havocKeys(st, ks)
+			continue
+		}
 		for _, k := range l.keys {
 			srt := ex.universe[k]
 			if srt == "" {
